@@ -128,7 +128,12 @@ func (kvsm *kvStoreSM) localLfixkeyCommand(cmd redcon.Command, ts int64) (interf
 }
 
 func (kvsm *kvStoreSM) localLpopCommand(cmd redcon.Command, ts int64) (interface{}, error) {
-	return kvsm.store.LPop(ts, cmd.Args[1])
+	v, err := kvsm.store.LPop(ts, cmd.Args[1])
+	if v == nil {
+		// no element: the reply is nil, not an empty string
+		return nil, err
+	}
+	return v, err
 }
 
 func (kvsm *kvStoreSM) localLpushCommand(cmd redcon.Command, ts int64) (interface{}, error) {
@@ -158,7 +163,12 @@ func (kvsm *kvStoreSM) localLtrimCommand(cmd redcon.Command, ts int64) (interfac
 }
 
 func (kvsm *kvStoreSM) localRpopCommand(cmd redcon.Command, ts int64) (interface{}, error) {
-	return kvsm.store.RPop(ts, cmd.Args[1])
+	v, err := kvsm.store.RPop(ts, cmd.Args[1])
+	if v == nil {
+		// no element: the reply is nil, not an empty string
+		return nil, err
+	}
+	return v, err
 }
 
 func (kvsm *kvStoreSM) localRpushCommand(cmd redcon.Command, ts int64) (interface{}, error) {
